@@ -377,3 +377,186 @@ Theorem C05_ibfs_layers :
          List.nth k (ihashes b) nil = List.map (hashf G) (cur_layer b).
 Proof. exact @ibfs_layers. Qed.
 Print Assumptions C05_ibfs_layers.
+
+From V Require Import Base Tensor Graph GraphProofs GraphImpl Hash Def Paths BfsStep Bfs BfsRun BfsProofs PathsProofs Mitm MitmProofs PathRun MitmFind Interactive InteractiveBetween InstPerm InstSmall InstBfs InstPaths.
+
+(* END TO END on env_of d: MITM returns a shortest path iff the distance is at most 2D; only NoColl and the layer-size bound remain *)
+Theorem C05_perm_mitm_exact :
+  forall (d : gdesc) (inv_mats : list (list (list BinNums.Z))) (e : path_env),
+         wf_perm_desc d ->
+         env_of d inv_mats = Some e ->
+         NoCollOn (impl_of d) (Ustates d) ->
+         forall c : state,
+         Ustates d c ->
+         (forall (q : state) (k : nat),
+          BinInt.Z.lt
+            (BinInt.Z.of_nat (length (layer state st_eq_dec (acts (pe_Ginv e)) (q :: nil) k)))
+            (BinNums.Zpos
+               (BinNums.xO
+                  (BinNums.xO
+                     (BinNums.xO
+                        (BinNums.xO
+                           (BinNums.xO
+                              (BinNums.xO
+                                 (BinNums.xO
+                                    (BinNums.xO
+                                       (BinNums.xO
+                                          (BinNums.xO
+                                             (BinNums.xO
+                                                (BinNums.xO
+                                                   (BinNums.xI
+                                                      (BinNums.xO
+                                                         (BinNums.xO
+                                                            (BinNums.xO
+                                                               (BinNums.xI
+                                                                  (BinNums.xO
+                                                                     (BinNums.xI
+                                                                        (BinNums.xO
+                                                                        (BinNums.xO
+                                                                        (BinNums.xI
+                                                                        (BinNums.xO
+                                                                        (BinNums.xI
+                                                                        (BinNums.xO
+                                                                        (BinNums.xO
+                                                                        (BinNums.xI
+                                                                        (BinNums.xO
+                                                                        (BinNums.xI
+                                                                        (BinNums.xO
+                                                                        (BinNums.xI
+                                                                        (BinNums.xI
+                                                                        (BinNums.xO
+                                                                        (BinNums.xO
+                                                                        (BinNums.xO
+                                                                        (BinNums.xI
+                                                                        (BinNums.xO
+                                                                        (BinNums.xI
+                                                                        (BinNums.xI BinNums.xH))))))))))))))))))))))))))))))))))))))))) ->
+         forall (lh : list (list BinNums.Z)) (ns : nat) (q : state) (k : nat),
+         ball_ok (pe_G e) c lh ->
+         length lh = ns ->
+         1 <= ns ->
+         Ustates d q ->
+         dist_is state (acts (pe_G e)) (c :: nil) q k ->
+         k <= 2 * (ns - 1) ->
+         exists p : list nat,
+           mitm_find_path_to (pe_G e) (pe_Ginv e) lh ns (hashf (pe_G e) c) q = Ok (Some p) /\
+           length p = k /\ run state (acts (pe_G e)) c p = Some q.
+Proof. exact @mitm_to_perm_exact. Qed.
+Print Assumptions C05_perm_mitm_exact.
+
+(* single-word identity hash: no hash hypothesis *)
+Theorem C05_perm_mitm_exact_unconditional :
+  forall (d : gdesc) (inv_mats : list (list (list BinNums.Z))) (e : path_env),
+         wf_perm_desc d ->
+         env_of d inv_mats = Some e ->
+         g_hasher d = HIdentity ->
+         single_word d ->
+         forall c : state,
+         Ustates d c ->
+         (forall (q : state) (k : nat),
+          BinInt.Z.lt
+            (BinInt.Z.of_nat (length (layer state st_eq_dec (acts (pe_Ginv e)) (q :: nil) k)))
+            (BinNums.Zpos
+               (BinNums.xO
+                  (BinNums.xO
+                     (BinNums.xO
+                        (BinNums.xO
+                           (BinNums.xO
+                              (BinNums.xO
+                                 (BinNums.xO
+                                    (BinNums.xO
+                                       (BinNums.xO
+                                          (BinNums.xO
+                                             (BinNums.xO
+                                                (BinNums.xO
+                                                   (BinNums.xI
+                                                      (BinNums.xO
+                                                         (BinNums.xO
+                                                            (BinNums.xO
+                                                               (BinNums.xI
+                                                                  (BinNums.xO
+                                                                     (BinNums.xI
+                                                                        (BinNums.xO
+                                                                        (BinNums.xO
+                                                                        (BinNums.xI
+                                                                        (BinNums.xO
+                                                                        (BinNums.xI
+                                                                        (BinNums.xO
+                                                                        (BinNums.xO
+                                                                        (BinNums.xI
+                                                                        (BinNums.xO
+                                                                        (BinNums.xI
+                                                                        (BinNums.xO
+                                                                        (BinNums.xI
+                                                                        (BinNums.xI
+                                                                        (BinNums.xO
+                                                                        (BinNums.xO
+                                                                        (BinNums.xO
+                                                                        (BinNums.xI
+                                                                        (BinNums.xO
+                                                                        (BinNums.xI
+                                                                        (BinNums.xI BinNums.xH))))))))))))))))))))))))))))))))))))))))) ->
+         forall (lh : list (list BinNums.Z)) (ns : nat) (q : state) (k : nat),
+         ball_ok (pe_G e) c lh ->
+         length lh = ns ->
+         1 <= ns ->
+         Ustates d q ->
+         dist_is state (acts (pe_G e)) (c :: nil) q k ->
+         k <= 2 * (ns - 1) ->
+         exists p : list nat,
+           mitm_find_path_to (pe_G e) (pe_Ginv e) lh ns (hashf (pe_G e) c) q = Ok (Some p) /\
+           length p = k /\ run state (acts (pe_G e)) c p = Some q.
+Proof. exact @mitm_to_perm_exact_unconditional. Qed.
+Print Assumptions C05_perm_mitm_exact_unconditional.
+
+(* set-to-set search, single-word identity hash *)
+Theorem C05_perm_between_sound_unconditional :
+  forall (d : gdesc) (inv_mats : list (list (list BinNums.Z))) (e : path_env),
+         wf_perm_desc d ->
+         env_of d inv_mats = Some e ->
+         g_hasher d = HIdentity ->
+         single_word d ->
+         forall A B : list state,
+         (forall s : state, List.In s A -> Ustates d s) ->
+         (forall s : state, List.In s B -> Ustates d s) ->
+         forall (maxd : BinNums.N) (s : state) (p : list nat),
+         find_path_between (pe_G e) (pe_Ginv e) A B maxd = Ok (Some (s, p)) ->
+         List.In s A /\
+         (exists b : state, List.In b B /\ run state (acts (pe_G e)) s p = Some b) /\
+         dstar (pe_G e) A B (length p) /\ length p <= 2 * BinNat.N.to_nat maxd.
+Proof. exact @between_perm_sound_unconditional. Qed.
+Print Assumptions C05_perm_between_sound_unconditional.
+
+(* set-to-set search finds a globally minimal pair *)
+Theorem C05_perm_between_complete_unconditional :
+  forall (d : gdesc) (inv_mats : list (list (list BinNums.Z))) (e : path_env),
+         wf_perm_desc d ->
+         env_of d inv_mats = Some e ->
+         g_hasher d = HIdentity ->
+         single_word d ->
+         forall A B : list state,
+         (forall s : state, List.In s A -> Ustates d s) ->
+         (forall s : state, List.In s B -> Ustates d s) ->
+         forall (maxd : BinNums.N) (k : nat),
+         dstar (pe_G e) A B k ->
+         k <= 2 * BinNat.N.to_nat maxd ->
+         exists (s : state) (p : list nat),
+           find_path_between (pe_G e) (pe_Ginv e) A B maxd = Ok (Some (s, p)).
+Proof. exact @between_perm_complete_unconditional. Qed.
+Print Assumptions C05_perm_between_complete_unconditional.
+
+(* and returns nothing only beyond twice the depth limit *)
+Theorem C05_perm_between_none_unconditional :
+  forall (d : gdesc) (inv_mats : list (list (list BinNums.Z))) (e : path_env),
+         wf_perm_desc d ->
+         env_of d inv_mats = Some e ->
+         g_hasher d = HIdentity ->
+         single_word d ->
+         forall A B : list state,
+         (forall s : state, List.In s A -> Ustates d s) ->
+         (forall s : state, List.In s B -> Ustates d s) ->
+         forall maxd : BinNums.N,
+         (forall k : nat, dstar (pe_G e) A B k -> 2 * BinNat.N.to_nat maxd < k) ->
+         find_path_between (pe_G e) (pe_Ginv e) A B maxd = Ok None.
+Proof. exact @between_perm_none_unconditional. Qed.
+Print Assumptions C05_perm_between_none_unconditional.
